@@ -116,3 +116,50 @@ example : readIntAny (encInt 2 (-12)) = some (-12) ∧ widenInt true (encInt 2 (
   decide
 
 end ColumnVerif.Props.C01widen
+
+namespace ColumnVerif.Props.C01widen
+open ColumnVerif.Codec ColumnVerif.Wire
+
+private theorem p256_2 : (256 : Nat) ^ 2 = 65536 := by decide
+private theorem p256_4 : (256 : Nat) ^ 4 = 4294967296 := by decide
+private theorem p256_8 : (256 : Nat) ^ 8 = 18446744073709551616 := by decide
+
+/-- **C01 (untyped writers, signed).** Whatever signed Go integer type the value handed to `Row.SetAny` /
+    `Row.SetMany` / `Buffer.PutAny` has — int8, int16, int32, int64 or int — the operation written for it is read by
+    an `int` column (`Reader.Int`) as the same number. -/
+theorem putAny_signed_reads_back (t : GoInt) (hs : t.signed = true) (v : Int) (h : t.holds v) :
+    readIntAny (match putAnyInt t v with | .fixed _ bs => bs | .str bs => bs) = some v := by
+  cases t <;> simp [GoInt.signed] at hs <;>
+    simp only [GoInt.holds, GoInt.signed, GoInt.bits, if_true] at h <;>
+    simp only [putAnyInt, GoInt.opWidth]
+  · exact readIntAny_int16 v (by omega) (by omega)
+  · exact readIntAny_int16 v (by omega) (by omega)
+  · exact readIntAny_int32 v (by omega) (by omega)
+  · exact readIntAny_int64 v (by omega) (by omega)
+  · exact readIntAny_int64 v (by omega) (by omega)
+
+/-- **C01 (untyped writers, unsigned).** The same for uint8, uint16, uint32, uint64 and uint read by a `uint` column. -/
+theorem putAny_unsigned_reads_back (t : GoInt) (hs : t.signed = false) (v : Int) (h : t.holds v) :
+    readUintAny (match putAnyInt t v with | .fixed _ bs => bs | .str bs => bs) = some v.toNat := by
+  cases t <;> simp [GoInt.signed] at hs <;>
+    simp only [GoInt.holds, GoInt.signed, GoInt.bits, Bool.false_eq_true, if_false] at h <;>
+    simp only [putAnyInt, GoInt.opWidth]
+  · have hm : v % ((256 ^ 2 : Nat) : Int) = v := Int.emod_eq_of_lt h.1 (by rw [p256_2]; omega)
+    rw [hm]; exact readUintAny_value 2 (by simp) v.toNat (by rw [p256_2]; omega)
+  · have hm : v % ((256 ^ 2 : Nat) : Int) = v := Int.emod_eq_of_lt h.1 (by rw [p256_2]; omega)
+    rw [hm]; exact readUintAny_value 2 (by simp) v.toNat (by rw [p256_2]; omega)
+  · have hm : v % ((256 ^ 4 : Nat) : Int) = v := Int.emod_eq_of_lt h.1 (by rw [p256_4]; omega)
+    rw [hm]; exact readUintAny_value 4 (by simp) v.toNat (by rw [p256_4]; omega)
+  · have hm : v % ((256 ^ 8 : Nat) : Int) = v := Int.emod_eq_of_lt h.1 (by rw [p256_8]; omega)
+    rw [hm]; exact readUintAny_value 8 (by simp) v.toNat (by rw [p256_8]; omega)
+  · have hm : v % ((256 ^ 8 : Nat) : Int) = v := Int.emod_eq_of_lt h.1 (by rw [p256_8]; omega)
+    rw [hm]; exact readUintAny_value 8 (by simp) v.toNat (by rw [p256_8]; omega)
+
+/-- the operation has the width the column kind of the same Go type expects, except for the 8-bit types (16-bit) -/
+theorem putAny_width (t : GoInt) (v : Int) :
+    (match putAnyInt t v with | .fixed _ bs => bs.length | .str bs => bs.length) = t.opWidth := by
+  simp [putAnyInt, natToBE_length]
+
+example : GoInt.i8.holds (-128) ∧ putAnyInt .i8 (-128) = .fixed 1 [255, 128] := by decide
+
+end ColumnVerif.Props.C01widen
